@@ -808,6 +808,9 @@ func doCheck(repo, verif, prop string, pc propConf, tier string, seed uint64, wo
 		var unreached []string
 		reached := 0
 		for k, n := range tot.SiteHits {
+			if prop == "C08" && !strings.HasPrefix(k, "protocol.") {
+				continue // C08 is about the packet-header decoders
+			}
 			if n == 0 {
 				unreached = append(unreached, k)
 			} else {
@@ -815,7 +818,9 @@ func doCheck(repo, verif, prop string, pc propConf, tier string, seed uint64, wo
 			}
 		}
 		sort.Strings(unreached)
-		if pc.Harness == "hstream" {
+		if prop == "C11" {
+			// the outbound property does not depend on decoder reach
+		} else if pc.Harness == "hstream" {
 			cov["decoders_reached"] = reached
 			cov["unreached_decoders"] = unreached
 		} else {
